@@ -252,7 +252,7 @@ func ruleC06(c *Ctx) {
 					seg = ev
 				}
 			}
-			if seg == nil || len(seg.Loops) != 1 || len(seg.Args) < 4 {
+			if seg == nil || len(seg.Loops) != 1 || len(seg.Args) < 2 {
 				R.Unknown(key+":segments.call", pos, "segment helper call not found in the loop")
 			} else {
 				li, _ := seg.Loops[0].Frame.Loop(seg.Loops[0].Header)
